@@ -29,7 +29,7 @@ def main():
                 print(json.dumps({"error": "import %s failed: %s: %s" % (op[1], type(e).__name__, e)})); return
     loaded = {}
     for name, mod in sorted(sys.modules.items()):
-        if name.split(".")[0] in ("foo", "foobar", "foo_bar", "zed", "fo"):
+        if name.split(".")[0] in ("foo", "foobar", "foo_bar", "zed", "fo", "imp2"):
             f = getattr(mod, "f", None)
             if f is None:
                 continue
